@@ -301,8 +301,9 @@ Inductive jval :=
 | VNet (t : text)              (* net.ipnetwork, by its text form *)
 | VPath (t : text)             (* POSIX flavoured path, by its text form *)
 | VList (l : list jval)        (* typed list *)
-| VOpaque (j : json).          (* only produced by the plain-document fallback: a string field holding
-                                  Python's str() of a parsed list / dict (text not modelled) *)
+| VOpaque (j : json).          (* produced by the plain-document fallback: a string field holding Python's str() of
+                                  a parsed list / dict (text not modelled).  In a record handed to the WRITER it
+                                  stands for a value json.dumps refuses: pack_value is None *)
 
 Definition opt_text_eqb (a b : option text) : bool :=
   match a, b with
@@ -590,6 +591,30 @@ Fixpoint write_from (descriptors_on : bool) (reg : registry) (rs : list record) 
   end.
 
 Definition write_json (descriptors_on : bool) (rs : list record) : option (list json) := write_from descriptors_on [] rs.
+
+(* ---- the same writer when the application catches the exception of a refused write() and carries on.
+   pack_obj registers the record's descriptor (and the writer emits its document) BEFORE json.dumps meets the value it
+   refuses (an integer beyond the interpreter's int/str limit, a raw object smuggled into a typed list, ...: here any
+   record whose pack_record is None, e.g. one holding VOpaque).  A refused write therefore emits no record document,
+   and at most the descriptor document, which the registry then holds. ---- *)
+Definition write_step (descriptors_on : bool) (reg : registry) (r : record) : registry * list json :=
+  let (reg', dd) :=
+    if known (pack_guard_compares_desc cfg) reg (r_desc r) then (reg, [])
+    else let (reg', fired) := register reg (r_desc r) in
+         (reg', if fired && descriptors_on then [pack_descriptor (r_desc r)] else []) in
+  match pack_record descriptors_on r with
+  | Some doc => (reg', dd ++ [doc])
+  | None => (reg', dd)                       (* write() raised *)
+  end.
+
+Fixpoint write_tolerant (descriptors_on : bool) (reg : registry) (rs : list record) : list json :=
+  match rs with
+  | [] => []
+  | r :: rs' => let (reg', docs) := write_step descriptors_on reg r in docs ++ write_tolerant descriptors_on reg' rs'
+  end.
+
+Definition accepted (descriptors_on : bool) (r : record) : bool :=
+  match pack_record descriptors_on r with Some _ => true | None => false end.
 
 (* ---- reading values by declared type (the record constructor's conversions) ---- *)
 Fixpoint kind_lookup (tbl : list (text * kind)) (t : text) : option kind :=
